@@ -12,7 +12,7 @@
    [pclass]: the classifiers of Spec.v / BwSpec.v on the observed history, Token.Hash = CRC-64/ISO. *)
 From Coq Require Import ZArith NArith List Bool Arith.
 From GoCoap Require Import Base.Cases Base.Interleave Observe.Model Token.Model Token.Spec Token.Run
-  Token.BwModel Token.BwSpec Token.WriterModel.
+  Token.BwModel Token.BwSpec Token.WriterModel Token.ReasmModel.
 Import ListNotations.
 Open Scope Z_scope.
 
@@ -128,6 +128,11 @@ Definition brun_ev (ncall : nat) (s : brstate) (e : bev) : brstate * bool :=
     | BMsg m => (brecv_one ncall c m, br_cancelled s, ack_of m ++ br_acked s)
     | BBurst ms => (fold_left (brecv_one ncall) ms c, br_cancelled s, flat_map ack_of ms ++ br_acked s)
     | BCancel cid => (c, cid :: br_cancelled s, br_acked s)
+    | BElapse =>
+        (* an expired element is not loaded and is replaced by the next LoadOrStore: as good as absent
+           (Token/ReasmModel.v load_valid, ReasmProofs.expired_element_not_loaded) *)
+        (mkC _ _ _ _ (with_recving (shared _ _ _ _ c) []) (threads _ _ _ _ c) (rhist _ _ _ _ c) (rlin _ _ _ _ c),
+         br_cancelled s, br_acked s)
     end in
   let c2 := bsettle ncall c1 can ack in
   let fresh := firstn (length (rhist _ _ _ _ c2) - length (rhist _ _ _ _ c)) (rhist _ _ _ _ c2) in
@@ -144,10 +149,53 @@ Fixpoint brun_evs (ncall : nat) (s : brstate) (l : list bev) : bool :=
   | e :: q => let '(s', ok) := brun_ev ncall s e in ok && brun_evs ncall s' q
   end.
 
+(* ---------- the same history on the reassembly machine with validity (Token/ReasmModel.v) ----------
+   BStart -> RStart, a message with Block2 -> RBlock, BElapse -> RElapse, the return of the call that holds its
+   key -> REnd; per event the block numbers asked for and the number of 4.08 must be those of the machine. *)
+Definition key_of (cid : nat) (all : list bev) : Z :=
+  match find (fun e => match b_k e with BStart c _ _ => Nat.eqb c cid | _ => false end) all with
+  | Some e => match b_k e with BStart _ tok _ => hash tok | _ => 0 end
+  | None => 0
+  end.
+
+Definition rblock_of (m : bmsg) : list rsev :=
+  let '(_, dedup, _, tok, f, _, blk) := m in
+  match blk with
+  | Some (num, more) => if dedup then [] else [RBlock (hash tok) (mkBlk f num more)]
+  | None => []
+  end.
+
+Definition rs_ev (all : list bev) (s : rst) (e : bev) : rst * bool :=
+  let evs1 := match b_k e with
+              | BStart cid tok _ => [RStart cid (hash tok)]
+              | BMsg m => rblock_of m
+              | BBurst ms => flat_map rblock_of ms
+              | BElapse => [RElapse]
+              | _ => []
+              end in
+  let '(s1, o1) := rrun load_valid s evs1 in
+  let ends := flat_map (fun r => let k := key_of (o_cid r) all in
+                                 match hget k (holder s1) with
+                                 | Some c => if Nat.eqb c (o_cid r) then [REnd c k] else []
+                                 | None => []
+                                 end) (b_rets e) in
+  let '(s2, _) := rrun load_valid s1 ends in
+  (s2, nats_eqb (flat_map (fun o => match o with OAsk _ n => [n] | _ => [] end) o1) (b_asked e)
+       && Nat.eqb (length (filter (fun o => match o with ORefuse _ => true | _ => false end) o1)) (b_inc e)).
+
+Fixpoint rs_evs (all : list bev) (s : rst) (l : list bev) : bool :=
+  match l with
+  | [] => true
+  | e :: q => let '(s', ok) := rs_ev all s e in ok && rs_evs all s' q
+  end.
+
+Definition reasm_agrees (evs : list bev) : bool := rs_evs evs rempty evs.
+
 Definition bw_agrees (evs : list bev) : bool :=
   let cp := bcaller_progs evs in
   bcids_ok 0 evs &&
-  brun_evs (length cp) (mkBRS (binit (cp ++ [brecv_prog evs])) [] []) evs.
+  brun_evs (length cp) (mkBRS (binit (cp ++ [brecv_prog evs])) [] []) evs &&
+  reasm_agrees evs.
 
 Definition agrees (c : case) : bool :=
   match c with
